@@ -51,12 +51,14 @@ Register(a, n) ==
   /\ apps' = apps \cup {a} /\ size' = [size EXCEPT ![a] = n]
   /\ um' = [um EXCEPT ![a] = [v \in VIds |-> None]]
   /\ UNCHANGED <<used, resv>>
-Stop(a) ==
-  /\ a \in apps
+(* R: physical qubits reserved for pairs of this application whose response was still waiting; they go with it *)
+\* @type: (Int, Set(Int)) => Bool;
+Stop(a, R) ==
+  /\ a \in apps /\ R \subseteq resv
   /\ apps' = apps \ {a} /\ size' = [size EXCEPT ![a] = 0]
-  /\ used' = used \ MappedOf(um, a)
+  /\ used' = used \ (MappedOf(um, a) \cup R)
   /\ um' = [um EXCEPT ![a] = [v \in VIds |-> None]]
-  /\ UNCHANGED resv
+  /\ resv' = resv \ R
 QAlloc(a, v, p) ==
   /\ a \in apps /\ v < size[a] /\ um[a][v] = None /\ p \notin used
   /\ um' = [um EXCEPT ![a][v] = p] /\ used' = used \cup {p}
@@ -98,7 +100,7 @@ LinkStep(p, withNew) ==
 (* stuttering is allowed *)
 Next ==
   \/ \E a \in Apps, n \in VIds \cup {Cardinality(VIds)} : Register(a, n)
-  \/ \E a \in Apps : Stop(a)
+  \/ \E a \in Apps, R \in SUBSET resv : Stop(a, R)
   \/ \E a \in Apps, v \in VIds, p \in Phys : QAlloc(a, v, p) \/ Deliver(a, v, p)
   \/ \E a \in Apps, v \in VIds : QFree(a, v)
   \/ \E p \in Phys : Reserve(p)
